@@ -565,6 +565,14 @@ pub fn run(game: &RefGame, cfg: RunCfg) -> RefResult {
             // match, then discount
             let pos_f = discount_factor(t, params.a);
             let neg_f = discount_factor(t, params.b);
+            // a factor t^x/(t^x+1) below 1e-304 sits at the bottom of the range of a double:
+            // whether it (or its product with a regret) is a subnormal or an exact zero depends on
+            // how it is computed, and an exact zero versus a positive residue is a branch
+            let edge = |e: f64| e.is_finite() && e * (t as f64).ln() < -700.0;
+            if (edge(params.a) || edge(params.b)) && res.fragile_at.is_none() {
+                res.fragile_at = Some(t - 1);
+                res.fragile_why = Some("discount factor at the bottom of the range of a double");
+            }
             for p in 0..2 {
                 if let Some(u) = upd {
                     if *u != p {
